@@ -43,7 +43,8 @@ class Ctl:
     persistent:   after that, every later attempt of the SAME kind fails too (a rename that is refused again
                   on retry); effects are numbered in the order they are attempted, failed ones included."""
 
-    def __init__(self, mode=None, index=-1, err=None, kill_at=None, fault_at=None, persistent=False):
+    def __init__(self, mode=None, index=-1, err=None, kill_at=None, fault_at=None, persistent=False, lossy_close=False):
+        self.lossy_close = lossy_close     # a failing close() loses the bytes a real file would still have buffered
         self.kill_at = index if mode == "kill" else kill_at
         self.fault_at = index if mode == "fault" else fault_at
         self.err, self.persistent = err, persistent
@@ -187,15 +188,21 @@ class _ModProxy:
 
 
 class _FileProxy:
-    """Unbuffered file without fileno(): every write is one logged effect on the real file."""
+    """Unbuffered file without fileno(): every write is one logged effect on the real file.
+    A real buffered file would keep small writes in its userspace buffer until the next seek/flush/close; an
+    I/O error at close() (ENOSPC/EFBIG/EIO at flush time) means those bytes never reached the disk.  An injected
+    fault at close() therefore first turns the ranges written since the last seek/flush back into a hole
+    (zeros / shorter file) and then raises - a save that swallows the error would rename a file that lost data."""
 
     def __init__(self, ctl, f, name, mode):
         self._c, self._f, self.name, self.mode = ctl, f, name, mode
+        self._unflushed: list = []         # (position, length) written since the last seek/flush
 
     def write(self, b):
         self._c.tick("write")
         b = bytes(b)
         self._c.log.append(("write", self.name, self._f.tell(), b))
+        self._unflushed.append((self._f.tell(), len(b)))
         n = 0
         while n < len(b):                       # raw files may write short
             n += self._f.write(b[n:])
@@ -204,6 +211,7 @@ class _FileProxy:
     def seek(self, off, whence=0):
         self._c.tick("seek")
         self._c.log.append(("seek", self.name, off, whence))
+        self._unflushed.clear()
         return self._f.seek(off, whence)
 
     def tell(self):
@@ -215,6 +223,7 @@ class _FileProxy:
         return self._f.truncate(n)
 
     def flush(self):
+        self._unflushed.clear()
         return self._f.flush()
 
     def close(self):
@@ -223,7 +232,19 @@ class _FileProxy:
         try:
             self._c.tick("close")
         except OSError:
-            self._f.close()
+            try:                            # the buffered bytes are lost
+                if not self._c.lossy_close:
+                    self._unflushed.clear()
+                size = os.fstat(self._f.fileno()).st_size
+                for pos, n in self._unflushed:
+                    if pos + n >= size and "r+" not in self.mode:
+                        self._f.truncate(min(pos, size))
+                        size = min(pos, size)
+                    else:
+                        self._f.seek(pos)
+                        self._f.write(b"\0" * n)
+            finally:
+                self._f.close()
             raise
         self._c.log.append(("close", self.name))
         self._f.close()
@@ -251,8 +272,10 @@ def _make_open(ctl):
 class Shim:
     """Context manager installing the proxies on onnx_ir.external_data / _core."""
 
-    def __init__(self, ctl: Ctl, chunk: int | None):
-        self.ctl, self.chunk = ctl, chunk
+    def __init__(self, ctl: Ctl, chunk: int | None, realfile: bool = False):
+        # realfile: the module's own open() is NOT replaced - ordinary buffered Python files with a file
+        # descriptor, so ExternalTensor.tofile takes its copy_file_range path and numpy writes through the fd
+        self.ctl, self.chunk, self.realfile = ctl, chunk, realfile
 
     def __enter__(self):
         from onnx_ir import _core
@@ -267,7 +290,8 @@ class Shim:
         ed.os = _OsProxy(c)
         ed.shutil = _ModProxy(c, shutil, "shutil")
         ed.tempfile = _ModProxy(c, tempfile, "tempfile")
-        ed.open = _make_open(c)
+        if not self.realfile:
+            ed.open = _make_open(c)
         if self.chunk is not None:
             _core._EXTERNAL_TENSOR_COPY_CHUNK_SIZE = self.chunk
         real_release, real_invalidate = self.saved["release"], self.saved["invalidate"]
@@ -482,11 +506,11 @@ def save_kwargs(scn: dict, cb_log: list | None = None) -> dict:
     return kw
 
 
-def run_save(scn: dict, root: str, mode=None, index=-1, err=None, persistent=False):
+def run_save(scn: dict, root: str, mode=None, index=-1, err=None, persistent=False, realfile=False, lossy=False):
     """Build the scenario, run ir.save under the shim.  Returns (built, ctl, outcome)."""
     import onnx_ir as ir
     b = build(scn, root)
-    ctl = Ctl(mode, index, err, persistent=persistent)
+    ctl = Ctl(mode, index, err, persistent=persistent, lossy_close=lossy)
     for h, t in enumerate(b.ext):
         ctl.handles[id(t)] = h
 
@@ -494,7 +518,7 @@ def run_save(scn: dict, root: str, mode=None, index=-1, err=None, persistent=Fal
         ctl.tick("callback")
         ctl.log.append(("callback", i))
     outcome = ("ok", None)
-    with Shim(ctl, scn.get("chunk")):
+    with Shim(ctl, scn.get("chunk"), realfile):
         try:
             ir.save(b.model, os.path.join(root, "model.onnx"), **save_kwargs(scn, cb_log))
         except BaseException as e:  # noqa: BLE001  (KeyboardInterrupt / SystemExit are injected on purpose)
